@@ -90,19 +90,27 @@ fn formulate_path_selections_for_destructuring_arg(
             let next_depth = arg_depth.clone() * 2_u32.to_bigint().unwrap();
             if let Some((capture, substructure)) = is_at_capture(allocator, a, b) {
                 if let SExp::Atom = allocator.sexp(capture) {
-                    let (new_arg_path, new_arg_depth, tail) =
+                    let (new_arg_path, new_arg_depth, tail, capture_value) =
                         if let Some(prev_ref) = referenced_from {
-                            (arg_path, arg_depth, prev_ref)
+                            // A capture nested inside an enclosing capture names
+                            // the value at this position of the enclosing one,
+                            // not the enclosing value itself.
+                            let here = wrap_path_selection(
+                                allocator,
+                                arg_path.clone() + arg_depth.clone(),
+                                prev_ref,
+                            )?;
+                            (arg_path, arg_depth, prev_ref, here)
                         } else {
                             let capture_code = wrap_in_unquote(allocator, capture)?;
                             let qtail =
                                 wrap_path_selection(allocator, arg_path + arg_depth, capture_code)?;
-                            (bi_zero(), bi_one(), qtail)
+                            (bi_zero(), bi_one(), qtail, qtail)
                         };
 
                     // Was cbuf from capture.
                     let capture_atom = allocator.atom(capture);
-                    selections.insert(capture_atom.as_ref().to_vec(), tail);
+                    selections.insert(capture_atom.as_ref().to_vec(), capture_value);
 
                     return formulate_path_selections_for_destructuring_arg(
                         allocator,
